@@ -3,7 +3,7 @@
 //   * a 4x4 matrix is `Mat` with m[column][row] (the storage convention of the matrices under test, so lifting is a copy);
 //   * view volumes are described by their documented parameters; their corners are computed here in long double;
 //   * project/unProject references evaluate the gluProject / gluUnProject definitions (man pages cited by
-//     glm/ext/matrix_projection.hpp) in long double, unProject by Gauss-Jordan elimination with partial pivoting
+//     glm/ext/matrix_projection.hpp) in long double, unProject by Gauss-Jordan elimination with partial pivoting in __float128
 //     (GLM uses cofactors), and return a first-order forward error bound of the documented computation in T together
 //     with the Jacobians needed to propagate one bound through the other (round trips).
 // long double has a 64-bit significand: >= 2^11 times finer than double, its own rounding is ignored in the bounds.
@@ -50,6 +50,33 @@ static inline bool inverse(const Mat& a, Mat& inv) {
 		for (int i = 0; i < 4; ++i) if (i != k && w[i][k] != 0) { R f = w[i][k]; for (int c = 0; c < 8; ++c) w[i][c] -= f * w[k][c]; }
 	}
 	for (int i = 0; i < 4; ++i) for (int c = 0; c < 4; ++c) { inv.m[c][i] = w[i][4 + c]; if (!(inv.m[c][i] == inv.m[c][i]) || rabs(inv.m[c][i]) > 1e4000L) return false; }
+	return true;
+}
+
+// (proj*model)^-1 and x = (proj*model)^-1 b in __float128 (113-bit significand), rounded to long double at the end. Gauss-Jordan in long
+// double loses kappa(A) 2^-64, and kappa of a strongly off-centre projection times a translation reaches 10^8: not enough below the
+// double-precision bounds, which are componentwise and do not grow with kappa. In quad precision the reference error is < 10^-24.
+typedef __float128 Q;
+static inline bool solve_quad(const Mat& proj, const Mat& model, const R* b, Mat& A_out, Mat& Ai_out, R* x_out) {
+	Q w[4][8];
+	for (int i = 0; i < 4; ++i) for (int c = 0; c < 4; ++c) {
+		Q s = 0; for (int k = 0; k < 4; ++k) s += (Q)proj.m[k][i] * (Q)model.m[c][k];
+		w[i][c] = s; w[i][4 + c] = i == c ? 1 : 0; A_out.m[c][i] = (R)s;
+	}
+	for (int k = 0; k < 4; ++k) {
+		int p = k; Q best = w[k][k] < 0 ? -w[k][k] : w[k][k];
+		for (int i = k + 1; i < 4; ++i) { Q v = w[i][k] < 0 ? -w[i][k] : w[i][k]; if (v > best) { best = v; p = i; } }
+		if (best == 0) return false;
+		if (p != k) for (int c = 0; c < 8; ++c) { Q t = w[p][c]; w[p][c] = w[k][c]; w[k][c] = t; }
+		Q d = 1 / w[k][k];
+		for (int c = 0; c < 8; ++c) w[k][c] *= d;
+		for (int i = 0; i < 4; ++i) if (i != k && w[i][k] != 0) { Q f = w[i][k]; for (int c = 0; c < 8; ++c) w[i][c] -= f * w[k][c]; }
+	}
+	for (int i = 0; i < 4; ++i) {
+		Q s = 0;
+		for (int c = 0; c < 4; ++c) { s += w[i][4 + c] * (Q)b[c]; Ai_out.m[c][i] = (R)w[i][4 + c]; if (!(Ai_out.m[c][i] == Ai_out.m[c][i]) || rabs(Ai_out.m[c][i]) > 1e4000L) return false; }
+		x_out[i] = (R)s;
+	}
 	return true;
 }
 
@@ -101,7 +128,7 @@ template <class T> static inline void project_ref(const Mat& model, const Mat& p
 	for (int i = 0; i < 3; ++i) for (int j = 0; j < 3; ++j) o.J[i][j] = sc[i] * (A.m[j][i] - ndc[i] * A.m[j][3]) / w;
 }
 
-// gluUnProject in long double (exact solve of (proj*model) x = ndc4) + error bound + Jacobian d obj / d win.
+// gluUnProject: exact solve of (proj*model) x = ndc4 (quad precision, solve_quad) + error bound + Jacobian d obj / d win.
 // Bound = forward error of the documented computation "inverse(proj*model) * ndc, then divide" with the inverse formed by
 // cofactors (Cramer's rule, what glm::inverse does and what its error behaves like, DESIGN.md finding #17):
 //   * the product A = proj*model is rounded in T: |dA| <= 5u |proj||model|, which moves x by <= |A^-1| |dA| |x|;
@@ -122,10 +149,7 @@ static inline R perm3q(const R q[3][3]) {
 struct UnprojRef { R obj[3], err[3], J[3][3]; bool ok; };
 template <class T> static inline void unproject_ref(const Mat& model, const Mat& proj, const R* win, const R* vp, bool zo, UnprojRef& o, R cfac = 8) {
 	const R u = U<T>();
-	Mat A = mul(proj, model), Ai;
-	o.ok = inverse(A, Ai);
-	if (!o.ok) return;
-	Mat PM = mul(absm(proj), absm(model)), aAi = absm(Ai);
+	Mat PM = mul(absm(proj), absm(model));
 	R b[4], eb[4], ab[4];
 	R qx = (win[0] - vp[0]) / vp[2], qy = (win[1] - vp[1]) / vp[3];
 	b[0] = 2 * qx - 1; eb[0] = u * (4 * rabs(qx) + rabs(b[0]));
@@ -134,7 +158,10 @@ template <class T> static inline void unproject_ref(const Mat& model, const Mat&
 	b[3] = 1; eb[3] = 0;
 	for (int i = 0; i < 4; ++i) ab[i] = rabs(b[i]);
 	R x[4], ax[4], g[4], h[4], E[4];
-	apply(Ai, b, x);
+	Mat A, Ai;
+	o.ok = solve_quad(proj, model, b, A, Ai, x);
+	if (!o.ok) return;
+	Mat aAi = absm(Ai);
 	for (int i = 0; i < 4; ++i) ax[i] = rabs(x[i]);
 	apply(PM, ax, g);
 	for (int i = 0; i < 4; ++i) h[i] = 5 * u * g[i] + eb[i];
